@@ -154,7 +154,12 @@ def classify(h, cmd, rc, out, wall):
     failed = _FAILED_CHECK.findall(out)
     descs = [f.strip() for f in failed]
     unwind = [d for d in descs if 'unwinding assertion' in d]
-    real = [d for d in descs if 'unwinding assertion' not in d]
+    # a failed check "X is not currently supported by Kani" is a tool limit (the construct is merely reachable), never a violation
+    unsupported = [d for d in descs if 'not currently supported by Kani' in d or 'is not supported by Kani' in d]
+    real = [d for d in descs if 'unwinding assertion' not in d and d not in unsupported]
+    if unsupported and not real:
+        r.update(status='inconclusive', reason='unsupported construct reached: %s' % unsupported[0][:160])
+        return r
     if unwind and not real:
         r.update(status='inconclusive', reason='unwinding assertion failed (bound too small): %s' % unwind[0])
         return r
@@ -169,8 +174,11 @@ def classify(h, cmd, rc, out, wall):
         # e.g. unsupported construct reached, or cover unsatisfied
         if 'unsupported' in out.lower() or 'not currently supported' in out.lower():
             r.update(status='inconclusive', reason='unsupported construct reached')
+            i = out.lower().find('not currently supported')
+            r['detail'] = out[max(0, i - 1200):i + 800]
             return r
         r.update(status='inconclusive', reason='FAILED without failed checks')
+        r['detail'] = out[-3000:]
         return r
     r['status'] = 'violation'
     r['raw_out'] = out
